@@ -48,27 +48,40 @@ func (c *channels) Connect(ctx context.Context, target peer.ID) error {
 	if _, ok := c.subs[target]; !ok {
 		c.logger.Debug("subscribing to", zap.String("topic", id))
 
-		sub, err := c.ipfs.PubSub().Subscribe(ctx, id, options.PubSub.Discover(true))
+		// the channel to a peer is shared by every caller of this instance (every
+		// store that replicates with that peer): it lives as long as the
+		// channels themselves, not as long as the context of whoever happened to
+		// connect first
+		subCtx, cancel := context.WithCancel(c.ctx)
+
+		sub, err := c.ipfs.PubSub().Subscribe(subCtx, id, options.PubSub.Discover(true))
 		if err != nil {
+			cancel()
 			c.muSubs.Unlock()
 			return fmt.Errorf("unable to subscribe to pubsub: %w", err)
 		}
 
-		ctx, cancel := context.WithCancel(ctx)
-
-		c.subs[target] = &channel{
-			ctx:    ctx,
+		ch := &channel{
+			ctx:    subCtx,
 			cancel: cancel,
 			sub:    sub,
 			id:     id,
 		}
-		go func() {
-			c.monitorTopic(ctx, sub, target)
+		c.subs[target] = ch
 
-			// if monitor topic is done, remove target from cache
+		go func() {
+			c.monitorTopic(subCtx, sub, target)
+
+			// if monitor topic is done, remove target from cache (unless a
+			// newer channel has taken its place) and leave the topic
 			c.muSubs.Lock()
-			delete(c.subs, target)
+			if c.subs[target] == ch {
+				delete(c.subs, target)
+			}
 			c.muSubs.Unlock()
+
+			cancel()
+			_ = sub.Close()
 		}()
 	}
 	c.muSubs.Unlock()
